@@ -15,8 +15,13 @@
         hop: [VN 0; VL path; VB enc] to_xml | [VN 1; VL path] to_ele | [VN 2; VL path; tags; VL reqs] validated_element
              [VN 3; VL path; ns old; ns new] replace_namespace | [VN 4; VL path; VB tag; attrs] sub_ele | [VN 5; VL path; VB tag; ns; attrs] sub_ele_ns
              (paths are lxml child indices: text is not a child)
-        result: [VN 0] in-place edit | [VN 1; mnode] the element handed to the serialiser | [VN 2; mnode] the element returned | [VN 3; VN vres] *)
-From NC Require Import Model.Base Model.XTree Model.XmlHelpers Model.XmlHistory Glue.XCodec.
+        result: [VN 0] in-place edit | [VN 1; mnode] the element handed to the serialiser | [VN 2; mnode] the element returned | [VN 3; VN vres]
+   fn 10 session    [VL defaults (5 attrs); VL dicts (attrs..); VL sops] -> VL [ VL [VL defaults; VL dicts; VL trees] ... ]  (state after every call)
+        aarg: VL [] attrs omitted | VL [VN 0; VN i] the caller's i-th dictionary | VL [VN 1; attrs] a literal
+        sop: [VN 0; VB tag; aarg; kw] new_ele | [VN 1; VB tag; ns; aarg; kw] new_ele_ns | [VN 2; VB tag; VL decls; aarg; kw] new_ele_nsmap
+             [VN 3; VN tree; VL path; VB tag; aarg; kw] sub_ele | [VN 4; VN tree; VL path; VB tag; ns; aarg; kw] sub_ele_ns
+             [VN 5; VN i; name; VB value] the caller's own d_i[name] = value *)
+From NC Require Import Model.Base Model.XTree Model.XmlHelpers Model.XmlHistory Model.XmlSession Glue.XCodec.
 
 Definition dec_tags (v : val) : tagsarg :=
   match v with
@@ -71,6 +76,27 @@ Definition enc_obs (o : hobs) : val :=
   | OVal r => VL [VN 3; enc_vres r]
   end.
 
+Definition dec_aarg (v : val) : aarg :=
+  match v with
+  | VL [VN 0; VN i] => ACaller (N.to_nat i)
+  | VL [VN 1; a] => ALit (dec_attrs a)
+  | _ => ADefault
+  end.
+
+Definition dec_sop (v : val) : sop :=
+  match v with
+  | VL [VN 0; VB tag; a; kw] => SNew tag (dec_aarg a) (dec_attrs kw)
+  | VL [VN 1; VB tag; u; a; kw] => SNewNs tag (dec_ns u) (dec_aarg a) (dec_attrs kw)
+  | VL [VN 2; VB tag; m; a; kw] => SNewNsmap tag (dec_decls m) (dec_aarg a) (dec_attrs kw)
+  | VL [VN 3; VN t; p; VB tag; a; kw] => SSub (N.to_nat t) (dec_path p) tag (dec_aarg a) (dec_attrs kw)
+  | VL [VN 4; VN t; p; VB tag; u; a; kw] => SSubNs (N.to_nat t) (dec_path p) tag (dec_ns u) (dec_aarg a) (dec_attrs kw)
+  | VL [VN 5; VN i; k; VB x] => SDictSet (N.to_nat i) (dec_name k) x
+  | _ => SDictSet 0 (None, []) []
+  end.
+
+Definition enc_sstate (st : sstate) : val :=
+  VL [VL (map enc_attrs (s_dflt st)); VL (map enc_attrs (s_dicts st)); VL (map enc_m (s_trees st))].
+
 Definition run (v : val) : val :=
   match v with
   | VL [VN 1; VB ser; VB enc] => VB (to_xml ser enc)
@@ -88,5 +114,7 @@ Definition run (v : val) : val :=
   | VL [VN 8; t] => enc_x (mview (dec_m t))
   | VL [VN 9; t; VL ops] =>
       VL (map (fun so => VL [enc_m (fst so); enc_obs (snd so)]) (htrace (fun _ _ => []) (dec_m t) (map dec_hop ops)))
+  | VL [VN 10; VL dflt; VL dicts; VL ops] =>
+      VL (map enc_sstate (strace (mkS (map dec_attrs dflt) (map dec_attrs dicts) []) (map dec_sop ops)))
   | _ => verr 1
   end.
